@@ -401,9 +401,25 @@ class TransactionManager(Elaboratable):
             for sim_elem in elem.simultaneous_list:
                 all_simultaneous.update(method_map.transactions_for(sim_elem))
 
+        # transactions whose simultaneity partner can never run (e.g. an uncalled method) can never run either,
+        # and neither can the transactions simultaneous with them (e.g. branches of a nested condition)
+        dead = set[TBody]()
+        changed = True
+        while changed:
+            changed = False
+            for elem in method_map.methods_and_transactions:
+                for sim_elem in elem.simultaneous_list:
+                    if all(tr in dead for tr in method_map.transactions_for(sim_elem)):
+                        new_dead = set(method_map.transactions_for(elem)) - dead
+                        if new_dead:
+                            dead |= new_dead
+                            changed = True
+
         for elem in method_map.methods_and_transactions:
             for sim_elem in elem.simultaneous_list:
                 for tr1, tr2 in product(method_map.transactions_for(elem), method_map.transactions_for(sim_elem)):
+                    if tr1 in dead or tr2 in dead:
+                        continue
                     if tr1 in independents[tr2]:
                         raise RuntimeError(
                             textwrap.dedent(
